@@ -37,13 +37,22 @@ type c15Dir struct {
 
 // c15Conn is one case: one bridged connection with traffic in both directions.
 type c15Conn struct {
-	Idx         int    `json:"idx"`
-	Round       int    `json:"round"`
-	Conc        int    `json:"concurrency"`
-	ServerFirst bool   `json:"server_first"` // far end starts sending before it has read anything (solo rounds only)
-	C2S         c15Dir `json:"c2s"`
-	S2C         c15Dir `json:"s2c"`
-	Class       string `json:"class"`
+	Idx         int  `json:"idx"`
+	Round       int  `json:"round"`
+	Conc        int  `json:"concurrency"`
+	ServerFirst bool `json:"server_first"` // far end starts sending before it has read anything (solo rounds only)
+	// Turns != nil: request/response rounds instead of two free-running streams. The client writes
+	// Req bytes in one Write and waits for the complete reply of Rep bytes before its next request; the
+	// server waits for the complete request before it replies (one Write). Nothing else is in flight.
+	Turns []c15Turn `json:"turns,omitempty"`
+	C2S   c15Dir    `json:"c2s"`
+	S2C   c15Dir    `json:"s2c"`
+	Class string    `json:"class"`
+}
+
+type c15Turn struct {
+	Req int `json:"req"`
+	Rep int `json:"rep"`
 }
 
 // c15DirRes is what both ends observed for one direction.
@@ -70,6 +79,9 @@ type c15Live struct {
 	DialErr    string    `json:"dial_err,omitempty"`
 	NotBridged bool      `json:"far_end_never_saw_connection,omitempty"`
 	Aborted    bool      `json:"aborted_after_mismatch,omitempty"`
+	TurnsDone  int       `json:"turns_completed,omitempty"`
+	TurnFail   string    `json:"turn_failure,omitempty"` // what the client was doing when it gave up
+	TurnStall  bool      `json:"turn_stalled,omitempty"`
 
 	mu      sync.Mutex
 	claim   int // 0 unclaimed, 1 far end attached, 2 abandoned
@@ -275,6 +287,10 @@ func (e *c15Engine) serve(c *net.TCPConn, seq int) {
 	l.mu.Unlock()
 	defer close(l.srvDone)
 	sp := l.Spec
+	if sp.Turns != nil {
+		e.serveTurns(l, c, pre)
+		return
+	}
 	var wg sync.WaitGroup
 	wg.Add(1)
 	go func() {
@@ -300,6 +316,21 @@ func (e *c15Engine) client(l *c15Live) {
 	l.mu.Lock()
 	l.cli = conn
 	l.mu.Unlock()
+	if sp.Turns != nil {
+		e.clientTurns(l, conn)
+		conn.Close() // done or given up: lets the far end finish at once
+		select {
+		case <-l.srvDone:
+		case <-time.After(e.stall):
+			l.mu.Lock()
+			if l.claim == 0 {
+				l.claim = 2
+				l.NotBridged = true
+			}
+			l.mu.Unlock()
+		}
+		return
+	}
 	var wg sync.WaitGroup
 	wg.Add(2)
 	go func() {
@@ -324,6 +355,131 @@ func (e *c15Engine) client(l *c15Live) {
 		l.mu.Unlock()
 		<-l.srvDone // attached: its pumps are bounded by their own progress deadlines
 	}
+}
+
+// c15Exchange writes `out` bytes of the outgoing stream in one Write (0: nothing) and then reads
+// exactly `in` bytes of the incoming one, checking every chunk. It returns "" or what went wrong.
+func (e *c15Engine) c15Exchange(conn net.Conn, out int, os *bridgeStream, oh io.Writer, ores *c15DirRes, in int, iv *bridgeVerifier, rb []byte) (fail string, stalled bool) {
+	if out > 0 {
+		buf := make([]byte, out)
+		os.Next(buf)
+		oh.Write(buf)
+		conn.SetWriteDeadline(time.Now().Add(e.stall))
+		k, err := conn.Write(buf)
+		ores.Sent += int64(k)
+		if err != nil {
+			ores.SendErr = err.Error()
+			ores.SendStall = bridgeIsTimeout(err)
+			return fmt.Sprintf("writing a message of %d bytes: %d written: %v", out, k, err), ores.SendStall
+		}
+	}
+	for need := in; need > 0; {
+		conn.SetReadDeadline(time.Now().Add(e.stall))
+		n, err := conn.Read(rb[:min(need, len(rb))])
+		if n > 0 {
+			need -= n
+			if !iv.Check(rb[:n]) {
+				return "mismatch", false
+			}
+		}
+		if err != nil {
+			return fmt.Sprintf("waiting for a message of %d bytes: %d of them received: %v", in, in-need, err), bridgeIsTimeout(err)
+		}
+	}
+	return "", false
+}
+
+func c15FillRecv(res *c15DirRes, v *bridgeVerifier) {
+	res.Recv, res.RecvSHA, res.Checkpoints = v.Received, v.SHA(), v.Checkpoints
+	res.BadOffset, res.BadGot, res.BadWant = v.BadOffset, v.BadGot, v.BadWant
+	res.values = v.Values
+}
+
+// clientTurns drives a request/response connection.
+func (e *c15Engine) clientTurns(l *c15Live, conn net.Conn) {
+	sp := l.Spec
+	out := bridgeNewStream(e.r.Seed, sp.Idx, 'c', sp.C2S.Len)
+	v := bridgeNewVerifier(bridgeNewStream(e.r.Seed, sp.Idx, 's', sp.S2C.Len))
+	h := sha256.New()
+	rb := make([]byte, 64<<10)
+	for i, t := range sp.Turns {
+		if fail, stalled := e.c15Exchange(conn, t.Req, out, h, &l.C2S, t.Rep, v, rb); fail != "" {
+			l.TurnFail = fmt.Sprintf("turn %d (request %d bytes, reply %d bytes): client %s", i, t.Req, t.Rep, fail)
+			l.TurnStall = stalled
+			break
+		}
+		l.TurnsDone++
+	}
+	l.C2S.SentSHA = hex.EncodeToString(h.Sum(nil))
+	c15FillRecv(&l.S2C, v)
+}
+
+// serveTurns is the far end of a request/response connection.
+func (e *c15Engine) serveTurns(l *c15Live, c net.Conn, pre []byte) {
+	sp := l.Spec
+	out := bridgeNewStream(e.r.Seed, sp.Idx, 's', sp.S2C.Len)
+	v := bridgeNewVerifier(bridgeNewStream(e.r.Seed, sp.Idx, 'c', sp.C2S.Len))
+	h := sha256.New()
+	rb := make([]byte, 64<<10)
+	ok := true
+	if len(pre) > 0 {
+		ok = v.Check(pre)
+	}
+	prev := 0 // reply owed for the request read in the previous step
+	for i := 0; ok && i <= len(sp.Turns); i++ {
+		in := 0
+		if i < len(sp.Turns) {
+			in = sp.Turns[i].Req
+			if i == 0 {
+				in -= len(pre)
+			}
+		}
+		if fail, _ := e.c15Exchange(c, prev, out, h, &l.S2C, in, v, rb); fail != "" {
+			break
+		}
+		if i < len(sp.Turns) {
+			prev = sp.Turns[i].Rep
+		}
+	}
+	l.S2C.SentSHA = hex.EncodeToString(h.Sum(nil))
+	c15FillRecv(&l.C2S, v)
+}
+
+// judgeTurns is the oracle of a request/response connection: the client is the
+// driver, so the connection is judged at the point where the client stopped.
+func (e *c15Engine) judgeTurns(l *c15Live) (cands []c15Candidate, bad bool) {
+	r, sp := e.r, l.Spec
+	for _, d := range []struct {
+		name string
+		tag  byte
+		plan c15Dir
+		res  *c15DirRes
+	}{{"c2s", 'c', sp.C2S, &l.C2S}, {"s2c", 's', sp.S2C, &l.S2C}} {
+		if d.res.BadOffset >= 0 {
+			bad = true
+			r.Violate("C15:bytes-altered:"+d.name, fmt.Sprintf("connection %d (%s) direction %s: receiver's bytes are not a prefix of the sender's: first differing offset %d of %d, got %s want %s%s",
+				sp.Idx, sp.Class, d.name, d.res.BadOffset, d.plan.Len, d.res.BadGot, d.res.BadWant, c15Diagnose(r.Seed, sp.Idx, d.tag, d.plan.Len, d.res.BadOffset, d.res.BadGot)), sp, l)
+		}
+	}
+	if bad || l.TurnFail == "" {
+		if !bad && (l.C2S.Recv != sp.C2S.Len || l.S2C.Recv != sp.S2C.Len) {
+			bad = true
+			r.Violate("C15:stream-incomplete:c2s", fmt.Sprintf("connection %d (%s): all %d turns completed at the client but the far end had received %d of %d bytes", sp.Idx, sp.Class, len(sp.Turns), l.C2S.Recv, sp.C2S.Len), sp, l)
+		}
+		return nil, bad
+	}
+	// which message is being held back: the request (not all of it has reached the far end) or the reply
+	dir := "s2c"
+	if l.C2S.Recv < l.C2S.Sent || l.NotBridged {
+		dir = "c2s"
+	}
+	what := fmt.Sprintf("%s; at that point client->server: %d sent, %d received by the server; server->client: %d sent, %d received by the client; nothing else was in flight and neither end had closed",
+		l.TurnFail, l.C2S.Sent, l.C2S.Recv, l.S2C.Sent, l.S2C.Recv)
+	if l.TurnStall {
+		return []c15Candidate{{l, dir, what}}, false
+	}
+	r.Violate("C15:stream-incomplete:"+dir, fmt.Sprintf("connection %d (%s): %s", sp.Idx, sp.Class, what), sp, l)
+	return nil, true
 }
 
 // round runs the given connections concurrently and returns when all ended.
@@ -449,7 +605,49 @@ func c15Plan(r *core.Run) [][]*c15Conn {
 		}
 		rounds = append(rounds, round)
 	}
+	rounds = append(rounds, c15TurnPlan(r, rng, len(concs)))
 	return rounds
+}
+
+// c15TurnPlan: long-lived request/response connections whose messages end exactly on, just
+// before and just after multiples of the 32 KiB copy buffer, in either direction, with the
+// connection staying open and silent afterwards: a message must arrive without anything
+// else having to be written after it.
+func c15TurnPlan(r *core.Run, rng *rand.Rand, round int) []*c15Conn {
+	sizes := []int{32768, 1, 65536, 32767, 98304, 32769, 131072, 16384, 65535, 163840, 65537, 49152, 131071, 32768, 196608, 131073, 32768}
+	mk := func(idx int, name string, turns []c15Turn) *c15Conn {
+		sp := &c15Conn{Idx: idx, Round: round, Conc: 3, Turns: turns}
+		for _, t := range turns {
+			sp.C2S.Len += int64(t.Req)
+			sp.S2C.Len += int64(t.Rep)
+		}
+		sp.Class = fmt.Sprintf("request-response|%s|%d turns", name, len(turns))
+		return sp
+	}
+	build := func(k int) (both, rep, req []c15Turn) {
+		ss := append([]int(nil), sizes...)
+		if k > 0 {
+			rng.Shuffle(len(ss), func(i, j int) { ss[i], ss[j] = ss[j], ss[i] })
+			for i := 0; i < 6; i++ {
+				ss = append(ss, 32768*(1+rng.Intn(8))+rng.Intn(3)-1)
+			}
+			if ss[0] < bridgeHdrLen {
+				ss[0], ss[1] = ss[1], ss[0]
+			}
+		}
+		for i, n := range ss {
+			both = append(both, c15Turn{Req: n, Rep: ss[(i+3)%len(ss)]})
+			rep = append(rep, c15Turn{Req: 16 + i, Rep: n})
+			req = append(req, c15Turn{Req: max(n, bridgeHdrLen), Rep: 1 + i%5})
+		}
+		return
+	}
+	var out []*c15Conn
+	for k := 0; k < r.Pick(1, 6); k++ {
+		both, rep, req := build(k)
+		out = append(out, mk(3000000+10*k, "exact-sizes-both-ways", both), mk(3000001+10*k, "exact-size-replies", rep), mk(3000002+10*k, "exact-size-requests", req))
+	}
+	return out
 }
 
 // c15Diagnose looks for the received bytes further on in the sender's stream.
@@ -496,6 +694,9 @@ func (e *c15Engine) judge(l *c15Live, confirmRun bool) (cands []c15Candidate, ba
 	if l.DialErr != "" {
 		r.Broken(fmt.Sprintf("connection %d: cannot connect to the bridge frontend: %s", sp.Idx, l.DialErr))
 		return nil, false
+	}
+	if sp.Turns != nil {
+		return e.judgeTurns(l)
 	}
 	if l.NotBridged {
 		cands = append(cands, c15Candidate{l, "c2s", fmt.Sprintf("the far TCP end never saw connection %d although the client wrote %d bytes", sp.Idx, l.C2S.Sent)})
@@ -899,6 +1100,228 @@ func c15Passthrough(r *core.Run, bins bridgeBins) []*core.Proc {
 	return []*core.Proc{back}
 }
 
+// ---- slow passthrough exchanges ---------------------------------------------------------------
+
+// c15SlowUpload is one non-bridge request whose body takes longer than ten seconds to arrive.
+type c15SlowUpload struct {
+	Tok     string `json:"tok"`
+	Kind    string `json:"kind"` // trickle: 1 KiB per second | pause: half, 10.7 s of silence, half | chunked-trickle
+	BodyLen int    `json:"body_len"`
+	Chunked bool   `json:"chunked"`
+	Class   string `json:"class"`
+}
+
+// c15SlowPassthrough starts a second passthrough instance of the backend binary in front of a raw
+// backend and, in the background, sends it requests whose bodies arrive slowly (and one request
+// whose response is produced slowly). The returned finish function waits for them and judges:
+// the backend port must have received each request once, complete and unaltered.
+func c15SlowPassthrough(r *core.Run, bins bridgeBins) ([]*core.Proc, func()) {
+	type seen struct {
+		req *rawhttp.Message
+		err string
+	}
+	var mu sync.Mutex
+	got := map[string][]seen{}
+	const dlChunks, dlChunk = 14, 1024
+	srv, err := rawhttp.NewServer(func(req *rawhttp.Message, reqErr error, conn net.Conn, br *bufio.Reader) bool {
+		tok := ""
+		if v := req.Get("X-Tok"); len(v) > 0 {
+			tok = v[0]
+		}
+		sn := seen{req: req}
+		if reqErr != nil {
+			sn.err = reqErr.Error()
+		}
+		mu.Lock()
+		got[tok] = append(got[tok], sn)
+		mu.Unlock()
+		if reqErr != nil {
+			return false
+		}
+		var w rawhttp.Builder
+		if strings.HasPrefix(req.Target, "/slow-download/") {
+			// a response that is produced over 14 s
+			w.Line("HTTP/1.1 200 OK").Field("Content-Length", strconv.Itoa(dlChunks*dlChunk)).Field("X-Tok", tok).End()
+			if _, err := conn.Write(w.Bytes()); err != nil {
+				return false
+			}
+			body := tokBytes(tok, "slowdl", dlChunks*dlChunk)
+			for i := 0; i < dlChunks; i++ {
+				time.Sleep(time.Second)
+				if _, err := conn.Write(body[i*dlChunk : (i+1)*dlChunk]); err != nil {
+					return false
+				}
+			}
+			return true
+		}
+		w.Line("HTTP/1.1 200 OK").Field("Content-Length", "2").Field("X-Tok", tok).End()
+		w.WriteString("ok")
+		_, err := conn.Write(w.Bytes())
+		return err == nil
+	})
+	if err != nil {
+		r.Broken(err.Error())
+		return nil, func() {}
+	}
+	back, port, err := bridgeStartProc(r, "bridge-backend-slowpt", bins.Back, func(port int) []string {
+		return []string{"-frontend-port", strconv.Itoa(port), "-backend-port", strconv.Itoa(srv.Port())}
+	})
+	if err != nil {
+		srv.Close()
+		r.Broken(err.Error())
+		return nil, func() {}
+	}
+	addr := fmt.Sprintf("127.0.0.1:%d", port)
+	ups := []*c15SlowUpload{
+		{Kind: "trickle", BodyLen: 14 * 1024},
+		{Kind: "pause", BodyLen: 14*1024 + 1},
+		{Kind: "chunked-trickle", BodyLen: 13 * 1000, Chunked: true},
+	}
+	type upRes struct {
+		status int
+		err    string
+		secs   float64
+	}
+	results := make([]upRes, len(ups))
+	var wg sync.WaitGroup
+	for i, u := range ups {
+		u.Tok = fmt.Sprintf("slow%dn%d", r.Seed, i)
+		u.Class = "passthrough|slow-upload|" + u.Kind
+		wg.Add(1)
+		go func(i int, u *c15SlowUpload) {
+			defer wg.Done()
+			t0 := time.Now()
+			res := &results[i]
+			defer func() { res.secs = float64(int(time.Since(t0).Seconds()*10)) / 10 }()
+			conn, err := net.DialTimeout("tcp", addr, 5*time.Second)
+			if err != nil {
+				res.err = err.Error()
+				return
+			}
+			defer conn.Close()
+			conn.SetDeadline(time.Now().Add(60 * time.Second))
+			body := tokBytes(u.Tok, "slowup", u.BodyLen)
+			var w rawhttp.Builder
+			w.Line("POST /slow-upload/"+u.Tok+"?k="+u.Kind+" HTTP/1.1").Field("Host", "slow-"+u.Tok+".example").Field("X-Tok", u.Tok).Field("Accept-Encoding", "identity").Field("Content-Type", "application/octet-stream")
+			if u.Chunked {
+				w.Field("Transfer-Encoding", "chunked")
+			} else {
+				w.Field("Content-Length", strconv.Itoa(u.BodyLen))
+			}
+			w.End()
+			if _, err := conn.Write(w.Bytes()); err != nil {
+				res.err = err.Error()
+				return
+			}
+			send := func(p []byte) bool {
+				var b rawhttp.Builder
+				if u.Chunked {
+					b.Chunk(p)
+				} else {
+					b.Write(p)
+				}
+				if _, err := conn.Write(b.Bytes()); err != nil {
+					res.err = "writing the body: " + err.Error()
+					return false
+				}
+				return true
+			}
+			switch u.Kind {
+			case "pause":
+				if !send(body[:u.BodyLen/2]) {
+					break
+				}
+				time.Sleep(10700 * time.Millisecond)
+				send(body[u.BodyLen/2:])
+			default:
+				step := 1024
+				if u.Chunked {
+					step = 1000
+				}
+				for off := 0; off < len(body); off += step {
+					if !send(body[off:min(len(body), off+step)]) {
+						break
+					}
+					time.Sleep(time.Second)
+				}
+			}
+			if u.Chunked && res.err == "" {
+				var b rawhttp.Builder
+				b.LastChunk(nil)
+				conn.Write(b.Bytes())
+			}
+			m, err := rawhttp.ReadResponse(bufio.NewReader(conn), "POST")
+			if m != nil {
+				res.status = m.Status
+			}
+			if err != nil && res.err == "" {
+				res.err = "reading the response: " + err.Error()
+			}
+		}(i, u)
+	}
+	// the slowly produced response (observed only: the property speaks of requests)
+	dlTok := fmt.Sprintf("slowdl%d", r.Seed)
+	var dlNote string
+	wg.Add(1)
+	go func() {
+		defer wg.Done()
+		cl := rawhttp.NewClient(addr, 60*time.Second)
+		defer cl.Close()
+		var w rawhttp.Builder
+		w.Line("GET /slow-download/"+dlTok+" HTTP/1.1").Field("Host", "slow.example").Field("X-Tok", dlTok).End()
+		m, err := cl.Do(w.Bytes(), "GET")
+		switch {
+		case m == nil:
+			dlNote = fmt.Sprintf("no response: %v", err)
+		case err != nil || rawhttp.SHA(m.Body) != rawhttp.SHA(tokBytes(dlTok, "slowdl", dlChunks*dlChunk)):
+			dlNote = fmt.Sprintf("cut or altered: status %d, %d of %d body bytes, err %v", m.Status, len(m.Body), dlChunks*dlChunk, err)
+		default:
+			dlNote = "complete"
+		}
+	}()
+	finish := func() {
+		done := make(chan struct{})
+		go func() { wg.Wait(); close(done) }()
+		select {
+		case <-done:
+		case <-time.After(2 * time.Minute):
+			r.Broken("slow passthrough exchanges did not end within 2 minutes")
+			return
+		}
+		srv.Close()
+		r.Set("passthrough_slow_response_over_14s(observed_only)", dlNote)
+		for i, u := range ups {
+			r.Case(u.Class)
+			r.Add("passthrough_slow_uploads", 1)
+			res := results[i]
+			mu.Lock()
+			sn := got[u.Tok]
+			mu.Unlock()
+			g := &genReq{Tok: u.Tok, Method: "POST", Target: "/slow-upload/" + u.Tok + "?k=" + u.Kind, Host: "slow-" + u.Tok + ".example",
+				Fields: []rawhttp.Field{{Name: "Content-Type", Value: "application/octet-stream"}}, BodyLen: u.BodyLen, Chunked: u.Chunked, Class: u.Class}
+			g.body = tokBytes(u.Tok, "slowup", u.BodyLen)
+			client := fmt.Sprintf("the client (body sent over %.1f s) saw status %d, err %q", res.secs, res.status, res.err)
+			switch {
+			case len(sn) == 0:
+				r.Violate("C15:passthrough:slow-upload:request-not-delivered", fmt.Sprintf("non-bridge request %s (%s) did not reach the backend port; %s", g.Target, u.Kind, client), u, nil)
+			case len(sn) != 1:
+				r.Violate("C15:passthrough:slow-upload:delivery-count", fmt.Sprintf("the backend port saw request %s %d times; %s", g.Target, len(sn), client), u, nil)
+			case sn[0].err != "":
+				r.Violate("C15:passthrough:slow-upload:body-altered", fmt.Sprintf("%s (%s): the backend port received a damaged request: %s (%d of %d body bytes); %s", g.Target, u.Kind, sn[0].err, len(sn[0].req.Body), u.BodyLen, client), u,
+					map[string]interface{}{"received_start": sn[0].req.StartLine, "received_fields": sn[0].req.Fields})
+			default:
+				if bad := c15ComparePassthrough(g, sn[0].req); len(bad) > 0 {
+					r.Violate("C15:passthrough:slow-upload:"+diffKind(bad[0]), fmt.Sprintf("%s (%s): %s; %s", g.Target, u.Kind, strings.Join(bad, "; "), client), u,
+						map[string]interface{}{"received_start": sn[0].req.StartLine, "received_fields": sn[0].req.Fields})
+				} else if i == 0 {
+					r.Sample(map[string]interface{}{"slow_upload": u, "client_saw_status": res.status, "upload_seconds": res.secs, "received_body_bytes": len(sn[0].req.Body)})
+				}
+			}
+		}
+	}
+	return []*core.Proc{back}, finish
+}
+
 // ---- E2: in-process cases (worker) -------------------------------------------------------
 
 type c15E2Case struct {
@@ -1047,15 +1470,18 @@ func c15E2(r *core.Run, bin string) {
 
 // C15 — the TCP bridge carries byte streams intact in both directions.
 func C15(r *core.Run) {
-	r.SetRule("E1: harness TCP clients -> real tcp-bridge-frontend -> real tcp-bridge-backend -> harness TCP server, rounds of 1/4/16/48 concurrent connections, both directions at once, each direction an independent stream header+PRNG(seed,conn,dir) written with sizes {1,2,1023,1024,1025,4096,32768,65537,random} and read with buffers {1,7,1024,65536}; every read is compared with the regenerated stream (prefix), length+SHA-256 at the end; plus one connection per direction whose receiver stalls 13-14 s while 32-48 MiB are pushed at it (flow control must hold the sender, every byte must arrive) and a connection that lives 32 s (thorough: both directions, also 63 s) with a trickling receiver so that data is in flight all the time; class = (concurrency, who speaks first, per direction write size/read buffer/length class). Passthrough: grammar-generated requests of C02 plus websocket upgrades on other paths / plain and other-protocol requests on the streaming path through the backend binary to a raw recording backend under the request fidelity oracle. E2: connection.Handler/DialWebsocket/WebsocketNetConn in-process with empty writes, 1-byte reads, raw gorilla peers interleaving binary/ping/pong frames, small Reads followed by io.Copy / bufio.Reader.WriteTo on the same connection, single writes up to 16 MiB")
+	r.SetRule("E1: harness TCP clients -> real tcp-bridge-frontend -> real tcp-bridge-backend -> harness TCP server, rounds of 1/4/16/48 concurrent connections, both directions at once, each direction an independent stream header+PRNG(seed,conn,dir) written with sizes {1,2,1023,1024,1025,4096,32768,65537,random} and read with buffers {1,7,1024,65536}; every read is compared with the regenerated stream (prefix), length+SHA-256 at the end; plus one connection per direction whose receiver stalls 13-14 s while 32-48 MiB are pushed at it (flow control must hold the sender, every byte must arrive) and a connection that lives 32 s (thorough: both directions, also 63 s) with a trickling receiver so that data is in flight all the time; and request/response connections (one message at a time, the peer waits for all of it before answering) with message sizes on and around multiples of 32 KiB; class = (concurrency, who speaks first, per direction write size/read buffer/length class). Passthrough: grammar-generated requests of C02 plus websocket upgrades on other paths / plain and other-protocol requests on the streaming path through the backend binary to a raw recording backend under the request fidelity oracle, plus three uploads whose bodies take 11-14 s to arrive (1 KiB/s, a 10.7 s pause, chunked) and one response produced over 14 s (observed only). E2: connection.Handler/DialWebsocket/WebsocketNetConn in-process with empty writes, 1-byte reads, raw gorilla peers interleaving binary/ping/pong frames, small Reads followed by io.Copy / bufio.Reader.WriteTo on the same connection, single writes up to 16 MiB")
 	r.Assume("passthrough: well-formed requests only (C02 generator); hop-by-hop fields are legitimately removed, upgrade requests keep Connection/Upgrade; X-Forwarded-For may gain the proxy's client address after the sender's values; only HTTP/1.1 towards the backend binary (h2c not exercised)")
 	r.Assume("a stream that stops making progress for 20 s (E1) / 10 s (E2) counts only if the same connection plan stalls again when re-run alone")
 	bins := bridgeBuild(r)
 	worker := r.MustBuild(r.BuildWorker())
 
+	slowProcs, finishSlow := c15SlowPassthrough(r, bins) // runs in the background for about 15 s
 	procs, finishStalled := c15Streams(r, bins)
+	procs = append(procs, slowProcs...)
 	procs = append(procs, c15Passthrough(r, bins)...)
 	c15E2(r, worker)
+	finishSlow()
 	finishStalled()
 
 	judgeProcs(r, true, procs...)
